@@ -29,6 +29,9 @@ type sworld struct {
 	w      *hw.World               // for Values()
 	// pools for constraint generation
 	names, mimes, tags, titles, nodeTypes []string
+	// edgeTypes: attributes other than camliMember / camliPath:* through which permanodes point at
+	// other permanodes (relation constraints with an explicit EdgeType)
+	edgeTypes []string
 	dates                                 []time.Time
 	allRefs                               []blob.Ref
 	// atDates: instants worth using as PermanodeConstraint.At: right at / after a del-attribute of a
@@ -360,6 +363,112 @@ func genSearchWorld(rng *rand.Rand, label string, nPN int, tiedTimes bool, exoti
 		}
 		w.features["multi-member-set"]++
 	}
+	// custom edge types: permanodes that point at other permanodes through attributes other than
+	// camliMember / camliPath:* — a made-up "seeAlso" attribute (single- and multi-valued, with
+	// superseded and removed edges) and camliContent naming a permanode — so that relation
+	// constraints with an explicit EdgeType have something to find in both directions
+	w.edgeTypes = []string{"seeAlso", "camliContent"}
+	for i, pn := range w.pns {
+		if i%7 == 6 || len(w.pns) < 4 {
+			continue
+		}
+		other := func(k int) blob.Ref { return w.pns[(i+k)%len(w.pns)] }
+		switch i % 5 {
+		case 0:
+			claim(hw.Set, pn, "seeAlso", other(1+rng.Intn(3)).String())
+			w.features["custom-edge/seeAlso"]++
+		case 2:
+			c, d := other(1), other(2+rng.Intn(2))
+			claim(hw.Add, pn, "seeAlso", c.String())
+			claim(hw.Add, pn, "seeAlso", d.String())
+			if rng.Intn(2) == 0 {
+				claim(hw.Del, pn, "seeAlso", c.String()) // a stale edge
+				w.features["custom-edge/seeAlso-removed"]++
+			}
+			w.features["custom-edge/seeAlso"]++
+		case 3:
+			if rng.Intn(3) > 0 {
+				claim(hw.Set, pn, "camliContent", other(1+rng.Intn(4)).String())
+				w.features["custom-edge/camliContent-names-permanode"]++
+			}
+		case 4:
+			// superseded single-valued edge
+			claim(hw.Set, pn, "seeAlso", other(1).String())
+			claim(hw.Set, pn, "seeAlso", other(2).String())
+			w.features["custom-edge/seeAlso-superseded"]++
+		}
+	}
+	// a batch of typed permanodes (tied worlds): many permanodes of one camliNodeType whose
+	// creation times coincide (one import run)
+	if tiedTimes {
+		for i, pn := range w.pns {
+			if i%7 == 6 || rng.Intn(2) == 0 {
+				continue
+			}
+			claim(hw.Set, pn, "camliNodeType", w.nodeTypes[rng.Intn(3)%2])
+			w.features["typed-batch-member"]++
+		}
+	}
+	// explicit date attributes (pkg/index PermanodeTime: paymentDueDate, startDate, dateCreated come
+	// before the content file's time, datePublished and dateModified after it, all before the
+	// camliContent claim date and the modtime).  The values are RFC 3339 strings in various zone
+	// notations of instants that OTHER permanodes also have as their time (through another notation,
+	// a claim date or a file time): equal instants, written differently.
+	{
+		var instants []time.Time
+		if tiedTimes {
+			instants = append(instants, tiedPool[0], tiedPool[1], tiedPool[2])
+		} else {
+			instants = append(instants, base.Add(-90*time.Minute), base.Add(100*time.Hour+250*time.Millisecond))
+		}
+		for _, f := range fileRefs {
+			if mt := w.files[f].mtime; !mt.IsZero() {
+				instants = append(instants, mt)
+				break
+			}
+		}
+		dOff, dk := rng.Intn(7*6*9), 0
+		for i, pn := range w.pns {
+			if i%7 == 6 {
+				continue
+			}
+			if tiedTimes && rng.Intn(5) < 3 || !tiedTimes && rng.Intn(4) > 0 {
+				continue
+			}
+			var inst time.Time
+			switch k := rng.Intn(6); {
+			case k == 0 && i > 0:
+				// the time some other permanode has right now
+				if t, ok := w.anyTime(w.pns[rng.Intn(i)]); ok {
+					inst = t
+					break
+				}
+				fallthrough
+			default:
+				inst = instants[rng.Intn(len(instants))]
+			}
+			// attribute and notation cycle from a per-world offset (every class turns up within a few worlds)
+			dk++
+			attr := []string{"dateCreated", "startDate", "dateCreated", "paymentDueDate", "datePublished", "dateCreated", "dateModified"}[(dOff+dk)%7]
+			val, note := zoneNotation(inst, (dOff/7+dk)%6)
+			if (dOff+dk)%9 == 4 {
+				val, note = []string{"not a date", "2001-02-03", "12:00:00Z"}[rng.Intn(3)], "unparsable"
+			}
+			claim(hw.Set, pn, attr, val)
+			w.dates = append(w.dates, inst) // time constraints get bounds exactly at these instants
+			w.features["date-attr/"+attr]++
+			w.features["date-attr/notation/"+note]++
+			if rng.Intn(6) == 0 {
+				// a second date attribute of another priority class on the same permanode
+				attr2 := []string{"dateCreated", "startDate", "datePublished", "dateModified"}[rng.Intn(4)]
+				if attr2 != attr {
+					v2, _ := zoneNotation(instants[rng.Intn(len(instants))], rng.Intn(6))
+					claim(hw.Set, pn, attr2, v2)
+					w.features["date-attr/two-on-one-permanode"]++
+				}
+			}
+		}
+	}
 	// deleted permanodes (delete claims on permanodes only; claim deletions are C07's subject)
 	for i, pn := range w.pns {
 		if i%5 == 4 {
@@ -373,6 +482,34 @@ func genSearchWorld(rng *rand.Rand, label string, nPN int, tiedTimes bool, exoti
 	}
 	sort.Slice(w.dates, func(i, j int) bool { return w.dates[i].Before(w.dates[j]) })
 	return w
+}
+
+// zoneNotation writes the instant t as an RFC 3339 string in one of several zone notations.
+func zoneNotation(t time.Time, k int) (val, note string) {
+	switch k {
+	case 0:
+		return t.UTC().Format(time.RFC3339Nano), "Z"
+	case 1:
+		return t.UTC().Format("2006-01-02T15:04:05.999999999-07:00"), "+00:00"
+	case 2:
+		return t.In(time.FixedZone("", 2*3600)).Format(time.RFC3339Nano), "+02:00"
+	case 3:
+		return t.In(time.FixedZone("", -(5*3600 + 1800))).Format(time.RFC3339Nano), "-05:30"
+	case 4:
+		return t.In(time.FixedZone("", 14*3600)).Format(time.RFC3339Nano), "+14:00"
+	}
+	return t.In(time.FixedZone("", -8*3600)).Format(time.RFC3339Nano), "-08:00"
+}
+
+// zoneOf returns the zone designator an RFC 3339 string ends in ("Z", "+02:00", ...).
+func zoneOf(v string) string {
+	if strings.HasSuffix(v, "Z") || strings.HasSuffix(v, "z") {
+		return "Z"
+	}
+	if len(v) >= 6 {
+		return v[len(v)-6:]
+	}
+	return "?"
 }
 
 // ---- facts derived from the generated claims (the documented semantics)
@@ -445,13 +582,14 @@ func (w *sworld) modtime(pn blob.Ref) (time.Time, bool) {
 		return m.t, m.ok
 	}
 	t, ok := w.modtime1(pn)
-	w.memoMod[pn] = timeOK{t, ok}
+	w.memoMod[pn] = timeOK{t, ok, "Z"}
 	return t, ok
 }
 
 type timeOK struct {
 	t  time.Time
 	ok bool
+	z  string // zone notation the instant was written in ("Z" for claim dates and file times)
 }
 
 // memoCheck drops the memoised times when the world's facts changed (claims added during
@@ -473,19 +611,55 @@ func (w *sworld) modtime1(pn blob.Ref) (time.Time, bool) {
 	return t, !t.IsZero()
 }
 
-// anyTime: time of the camliContent file if it has one, else the date of the claim that set the
-// current camliContent, else the modtime.  (Worlds use none of the explicit date attributes.)
+// anyTime: the time "that best qualifies the permanode" in the order of pkg/index
+// Corpus.PermanodeTime / PermanodeAnyTime: the paymentDueDate, startDate, dateCreated attribute
+// (first value, if it parses as RFC 3339); the time of the camliContent file; the datePublished,
+// dateModified attribute; the date of the claim that set the current camliContent; the modtime.
+// (Generated files carry a modtime only, which the index records as the file's time.)  The instant
+// is returned in UTC; anyZone tells the notation it was written in.
 func (w *sworld) anyTime(pn blob.Ref) (time.Time, bool) {
-	w.memoCheck()
-	if m, ok := w.memoAny[pn]; ok {
-		return m.t, m.ok
-	}
-	t, ok := w.anyTime1(pn)
-	w.memoAny[pn] = timeOK{t, ok}
-	return t, ok
+	m := w.anyTimeZ(pn)
+	return m.t, m.ok
 }
 
-func (w *sworld) anyTime1(pn blob.Ref) (time.Time, bool) {
+// anyZone: the zone designator of the string the permanode's time was read from.
+func (w *sworld) anyZone(pn blob.Ref) string { return w.anyTimeZ(pn).z }
+
+func (w *sworld) anyTimeZ(pn blob.Ref) timeOK {
+	w.memoCheck()
+	if m, ok := w.memoAny[pn]; ok {
+		return m
+	}
+	m := w.anyTime1(pn)
+	m.t = m.t.UTC()
+	w.memoAny[pn] = m
+	return m
+}
+
+// dateAttrsBeforeFile / dateAttrsAfterFile: the explicit date attributes, in priority order.
+var (
+	dateAttrsBeforeFile = []string{"paymentDueDate", "startDate", "dateCreated"}
+	dateAttrsAfterFile  = []string{"datePublished", "dateModified"}
+)
+
+func (w *sworld) attrTime(pn blob.Ref, attr string) (timeOK, bool) {
+	vs := w.valuesList(pn, attr, time.Time{})
+	if len(vs) == 0 || vs[0] == "" {
+		return timeOK{}, false
+	}
+	t, err := time.Parse(time.RFC3339, vs[0])
+	if err != nil {
+		return timeOK{}, false
+	}
+	return timeOK{t, true, zoneOf(vs[0])}, true
+}
+
+func (w *sworld) anyTime1(pn blob.Ref) timeOK {
+	for _, a := range dateAttrsBeforeFile {
+		if m, ok := w.attrTime(pn, a); ok {
+			return m
+		}
+	}
 	var cc blob.Ref
 	var ccTime time.Time
 	var cs []hw.ClaimInfo
@@ -506,11 +680,19 @@ func (w *sworld) anyTime1(pn blob.Ref) (time.Time, bool) {
 	}
 	if cc.Valid() {
 		if f := w.files[cc]; f != nil && !f.mtime.IsZero() {
-			return f.mtime, true
+			return timeOK{f.mtime, true, "Z"}
 		}
-		return ccTime, true
 	}
-	return w.modtime(pn)
+	for _, a := range dateAttrsAfterFile {
+		if m, ok := w.attrTime(pn, a); ok {
+			return m
+		}
+	}
+	if cc.Valid() {
+		return timeOK{ccTime, true, "Z"}
+	}
+	t, ok := w.modtime(pn)
+	return timeOK{t, ok, "Z"}
 }
 
 // restrict returns the world as an index sees it after exactly the blobs in `have` have arrived:
